@@ -8,6 +8,7 @@ import sys
 from ..core import Prop, Violation, import_repo, show_bool
 
 EDIT_TAGS = ["edit:setin", "edit:setout", "edit:delin", "edit:delout", "edit:addcap", "edit:delcap"]
+REWIRE_TAGS = ["unwire", "setwire", "revwires", "delmod", "setmod", "swapdiag"]   # public containers edited directly
 ERR_TAGS = ["attributeError", "extUnknownModule", "extUnknownPort", "inputType", "inputIntegrity", "multipleSources", "noHandler",
             "missingSource", "portsMismatch", "outputType", "outputIntegrity", "missingOutput", "wireType",
             "wireIntegrity", "multipleValues", "cannotResolve", "keyError", "handlerRaised"]
@@ -43,7 +44,7 @@ class C16(Prop):
     all_branches = (["mod:ok", "mod:moduleExists", "wire:ok", "wire:unknownOutputPort", "wire:unknownInputPort",
                      "wire:typeMismatch", "wire:integrityViolation", "rawwire", "handler:ret", "handler:retnone",
                      "handler:raise", "handler:xraise", "handler:retd", "handler:retv", "handler:unknownModule",
-                     "handler:retobj", "handler:reenter", "handler:mut", "handler2", "exec2", "names", "extmod"] + EDIT_TAGS + [ "ext", "caps",
+                     "handler:retobj", "handler:reenter", "handler:mut", "handler2", "exec2", "names", "extmod"] + EDIT_TAGS + REWIRE_TAGS + [ "ext", "caps",
                      "caps2", "capsmut", "speccaps", "share:ok", "share:moduleExists", "mod2:ok", "flow:ok", "flow:typeMismatch",
                      "flow:integrityViolation", "exec:ok"]
                     # the per-delivery "Multiple values" guard is unreachable since fix 56841f4 (two wires into one port and
@@ -238,6 +239,8 @@ class C16(Prop):
                       f"exec2 {rng.choice(['1', '0', 'd'])}"]
         if rng.random() < 0.3:
             lines += self._growth_history(rng, names, outs)
+        if rng.random() < 0.3:
+            lines += self._rewire_history(rng, names, ins, outs, wires, tin, tout, [l for l in lines if l.startswith("mod ")])
         lines.append("caps")
         if rng.random() < 0.35:
             lines += self._caps_history(rng, names)
@@ -302,6 +305,76 @@ class C16(Prop):
             else:
                 out.append(f"handler {rng.choice(names)} ret 0:raw:1")
             out.append(f"exec {rng.choice(['1', '0', 'd'])}")
+        return out
+
+    def _rewire_history(self, rng, names, ins, outs, wires, tin, tout, modlines):
+        """the SAME executor is used again after the diagram's public containers were edited directly so that the NUMBER of
+        modules and wires may well be what it was: a wire taken out of diagram.wires and another source connected to the
+        same port, a wire slot overwritten, the wires re-ordered, a module deleted and declared again (it moves to the end
+        of the dict), a module replaced by another spec under the same name, executor.diagram re-assigned to a second
+        diagram with the same modules (another dict order) and the same or other wires"""
+        nI = max(self.nI, 1)
+        out = []
+        ok = lambda a, q, b, p: ((a, q) in tout and (b, p) in tin and tout[(a, q)][0] == tin[(b, p)][0]
+                                 and tout[(a, q)][1] >= tin[(b, p)][1])
+        live = [w for w in wires if ok(*w)]
+        ex = lambda: f"exec {rng.choice(['1', '1', '0', 'd'])}"
+        out.append(ex())
+        for _ in range(rng.choice([1, 1, 2, 3])):
+            x = rng.random()
+            w = rng.choice(live) if live else None
+            if w and x < 0.3:
+                # another source for the same port: an existing compatible output, or a fresh module 10 / 11
+                a, q, b, p = w
+                alts = [(a2, q2) for (a2, q2) in tout if (a2, q2) != (a, q) and ok(a2, q2, b, p)]
+                if alts and rng.random() < 0.5:
+                    a2, q2 = rng.choice(alts)
+                else:
+                    a2, q2 = rng.choice([10, 11]), 0
+                    if (a2, 0) not in tout:
+                        tout[(a2, 0)] = (tin[(b, p)][0], rng.randrange(tin[(b, p)][1], nI))
+                        out += [self._mod_line(a2, [], [(0, tout[(a2, 0)])], []), f"handler {a2} ret 0:raw:{70 + a2}", ex()]
+                how = rng.random()
+                if how < 0.6:
+                    out += [f"unwire {a} {q} {b} {p}", f"wire {a2} {q2} {b} {p}"]
+                elif how < 0.8:
+                    out += [f"wire {a2} {q2} {b} {p}", ex(), f"unwire {a} {q} {b} {p}"]
+                else:
+                    out.append(f"setwire {rng.randrange(len(wires) + 1)} {a2} {q2} {b} {p}")
+                if ok(a2, q2, b, p):
+                    live = [z for z in live if z != w] + [(a2, q2, b, p)]
+            elif w and x < 0.4:       # the wire goes, the port is fed from outside instead
+                out += [f"unwire {w[0]} {w[1]} {w[2]} {w[3]}", f"ext {w[2]} {w[3]} raw {rng.randrange(100)}"]
+                live = [z for z in live if z != w]
+            elif x < 0.5:
+                out.append("revwires")
+            elif x < 0.65:            # a module leaves the dict and comes back at its end (same name, same ports)
+                m = rng.choice(names)
+                decl = [l for l in modlines if l.split()[1] == str(m)]
+                out.append(f"delmod {m}")
+                if rng.random() < 0.3:
+                    out.append(ex())
+                if decl and rng.random() < 0.85:
+                    out.append(decl[0])
+            elif x < 0.8:             # another spec under the same name: a port relabelled, or all ports gone
+                m = rng.choice(names)
+                if rng.random() < 0.7:
+                    i2 = [(p, (dt, rng.randrange(nI))) for p, (dt, il) in ins[m]]
+                    o2 = [(p, (dt, rng.randrange(nI))) for p, (dt, il) in outs[m]]
+                    out.append(self._mod_line(m, i2, o2, []).replace("mod ", "setmod ", 1))
+                else:
+                    out.append(self._mod_line(m, [], [], [0]).replace("mod ", "setmod ", 1))
+            else:
+                # executor.diagram = <a second diagram>: the same modules in another dict order, the same wires in another
+                # order, sometimes one wire short (its port is then unfed there)
+                decl = modlines[:]
+                rng.shuffle(decl)
+                ws = [f"wire {a} {q} {b} {p}" for (a, q, b, p) in live]
+                rng.shuffle(ws)
+                if ws and rng.random() < 0.4:
+                    ws.pop()
+                out += ["swapdiag"] + decl + ws + [ex(), "swapdiag"]
+            out.append(ex())
         return out
 
     def _caps_history(self, rng, names):
@@ -418,6 +491,34 @@ class C16(Prop):
         spaces.append({"name": "one executor: execute, then every sequence of <= 2 diagram edits (module with/without outputs, "
                                "handler, source; duplicate wire; late handler; competing external) each followed by execute",
                        "cases": cases})
+        # L: one executor, executed, then the diagram's public containers are edited directly (sizes often unchanged)
+        base = ["mod 0 I O 0:0:1 C 0", "mod 1 I 0:0:0 O C 1", "mod 2 I O 0:0:1 C", "wire 0 0 1 0",
+                "handler 0 ret 0:raw:4", "handler 1 ret", "handler 2 ret 0:raw:6"]
+        # the second diagram: the same modules in another dict order, the sink wired to the OTHER source
+        other = ["swapdiag", "mod 2 I O 0:0:1 C", "mod 1 I 0:0:0 O C 1", "mod 0 I O 0:0:1 C 0", "wire 2 0 1 0", "swapdiag"]
+        edits = [["unwire 0 0 1 0"], ["wire 2 0 1 0"], ["rawwire 2 0 1 0"], ["setwire 0 2 0 1 0"], ["setwire 0 0 0 1 0"],
+                 ["revwires"], ["delmod 2"], ["delmod 0"], ["mod 2 I O 0:0:1 C"], ["mod 0 I O 0:0:1 C 0"],
+                 ["setmod 1 I 0:0:2 O C"], ["setmod 2 I O 0:0:0 C"], ["setmod 1 I 0:0:0 1:0:0 O C"], ["swapdiag"],
+                 ["ext 1 0 raw 9"], ["wire 0 0 1 0"]]
+        cases = []
+        for pre in ([], other):
+            for enf in ("1", "0"):
+                for k in (1, 2, 3):
+                    if k == 3 and tier == "quick":
+                        continue
+                    for seq in itertools.product(edits, repeat=k):
+                        if pre == [] and any(e == ["swapdiag"] for e in seq) and k > 1:
+                            continue
+                        mid = [l for e in seq for l in e]
+                        cases.append({"lines": pre + base + [f"exec {enf}"] + mid + [f"exec {enf}"],
+                                      "note": "executor reused after direct edits of diagram.wires / .modules / executor.diagram"})
+                        if k == 2 and enf == "1":
+                            cases.append({"lines": pre + base + ["exec 1"] + seq[0] + ["exec 1"] + seq[1] + ["exec 1"],
+                                          "note": "executor reused after direct edits of diagram.wires / .modules / executor.diagram"})
+        spaces.append({"name": "one executor: execute, then every sequence of <= 2 (thorough: 3) direct edits of the public "
+                               "containers (wire removed / connected / overwritten / re-ordered, module deleted / re-declared / "
+                               "replaced, executor.diagram re-assigned to a same-sized diagram, external value), execute again; "
+                               "module and wire counts often unchanged", "cases": cases})
         # G: a chain 0 -> 1 -> 2 in every dict order, every subset of the wired ports ALSO given an external value
         cases = []
         for perm in itertools.permutations([0, 1, 2]):
@@ -818,6 +919,58 @@ class C16(Prop):
                         raise ValueError
                     (spec.capabilities.add if op == "addcap" else spec.capabilities.discard)(self.CAP[int(t[2])])
                     o = "ok"
+                elif op == "unwire" and len(t) == 5:
+                    a, p, b, q = map(int, t[1:5])
+                    w = W.Wire(mname(a), pname(p), mname(b), pname(q))
+                    if w not in d.wires:
+                        raise ValueError
+                    nexec[0] += 1
+                    if nexec[0] % 3 == 0:        # the three ways a caller takes a wire out of the public list
+                        d.wires.remove(w)
+                    elif nexec[0] % 3 == 1:
+                        del d.wires[d.wires.index(w)]
+                    else:                        # ... the last one re-assigns the attribute to a NEW list object
+                        i0 = d.wires.index(w)
+                        d.wires = [x for i, x in enumerate(d.wires) if i != i0]
+                    o = "ok"
+                elif op == "setwire" and len(t) == 6:
+                    i0 = int(t[1])
+                    a, p, b, q = map(int, t[2:6])
+                    if not 0 <= i0 < len(d.wires):
+                        raise ValueError
+                    d.wires[i0] = W.Wire(mname(a), pname(p), mname(b), pname(q))
+                    o = "ok"
+                elif op == "revwires" and len(t) == 1:
+                    nexec[0] += 1
+                    if nexec[0] % 2:
+                        d.wires.reverse()
+                    else:
+                        d.wires = d.wires[::-1]
+                    o = "ok"
+                elif op == "delmod" and len(t) == 2:
+                    if mname(int(t[1])) not in d.modules:
+                        raise ValueError
+                    nexec[0] += 1
+                    if nexec[0] % 2:
+                        del d.modules[mname(int(t[1]))]
+                    else:                        # the attribute re-assigned to a NEW dict object
+                        d.modules = {k: v for k, v in d.modules.items() if k != mname(int(t[1]))}
+                    o = "ok"
+                elif op == "setmod":
+                    rest = t[2:]
+                    iI, iO, iC = rest.index("I"), rest.index("O"), rest.index("C")
+                    pp = lambda ts: {pname(int(a)): self._pt(int(b), int(c)) for a, b, c in (z.split(":") for z in ts)}
+                    d.modules[mname(int(t[1]))] = W.ModuleSpec(
+                        mname(int(t[1])), inputs=pp(rest[iI + 1:iO]), outputs=pp(rest[iO + 1:iC]),
+                        capabilities={self.CAP[int(c)] for c in rest[iC + 1:]})
+                    o = "ok"
+                elif op == "swapdiag" and len(t) == 1:
+                    # the executors' public `diagram` attribute is re-assigned to the other diagram
+                    d, d2 = d2, d
+                    ex.diagram = d
+                    ex2.diagram = d
+                    last_caps[1], last_caps[2] = last_caps.get(2), last_caps.get(1)
+                    o = "ok"
                 elif op == "extmod" and len(t) == 2:
                     ext.setdefault(mname(int(t[1])), {})
                     o = "ok"
@@ -946,16 +1099,20 @@ class C16(Prop):
     def oracle(self, case, obs, extra):
         out = []
         V = lambda c, e, o, i: out.append(Violation(c, e, str(o)[:300], i))
-        mods2: dict = {}         # second diagram: name -> declared capability set (the harness's own record)
+        mods2: dict = {}         # second diagram: name -> (inputs, outputs, caps) (the harness's own record)
         mods: dict = {}          # name -> (inputs {p: (dt, il)}, outputs {p: (dt, il)}, caps)
-        wires: list = []         # (a, p, b, q, via_connect)
+        wires: list = []         # (a, p, b, q, via_connect), in the order of diagram.wires
+        wires2: list = []        # the second diagram's wires (it only gets any while it is the executors' diagram)
         handlers: dict = {}      # name -> ("raise" | "retnone" | "ret", [(port, None | (dt, il))])
         handlers_2: dict = {}    # the same for the second executor
         mutset_2: set = set()
         ext: dict = {}           # (m, p) -> None (raw) | (dt, il)
-        shared2: set = set()     # modules whose spec OBJECT is also in the second diagram
-        caps2_open: set = set()  # shared specs whose capability set was edited in place after sharing
+        shared2: set = set()     # modules whose spec OBJECT is in both diagrams
+        open1: set = set()       # specs of the first diagram that were edited in place THROUGH the other diagram
+        open2: set = set()       # the same for the second diagram (whether a diagram keeps the caller's ModuleSpec object
+                                 # or a copy is not something the property text decides: left to the correspondence)
         mutset: set = set()      # modules whose handler mutates the dict it is given
+        pp = lambda ts: {int(a): (int(b), int(c)) for a, b, c in (z.split(":") for z in ts)}
         for idx, (line, o) in enumerate(zip(case["lines"], obs)):
             t = line.split()
             if o == "bad-op":
@@ -963,31 +1120,56 @@ class C16(Prop):
             op = t[0]
             if op == "mod2":
                 if o == "ok":
-                    mods2[int(t[1])] = frozenset(int(c) for c in t[t.index("C") + 1:])
+                    rest = t[2:]
+                    iI, iO, iC = rest.index("I"), rest.index("O"), rest.index("C")
+                    mods2[int(t[1])] = (pp(rest[iI + 1:iO]), pp(rest[iO + 1:iC]), frozenset(int(c) for c in rest[iC + 1:]))
                 elif o != "raise:WiringError":
                     V("only_wiring_error", "ok or WiringError from add_module", o, idx)
             elif op == "share":
                 if o == "ok" and int(t[1]) in mods:
-                    mods2[int(t[1])] = frozenset(mods[int(t[1])][2])
+                    mods2[int(t[1])] = mods[int(t[1])]
                     shared2.add(int(t[1]))
                 elif o not in ("ok", "raise:WiringError"):
                     V("only_wiring_error", "ok or WiringError from add_module", o, idx)
             elif op == "caps2":
-                want = sorted(set().union(*mods2.values())) if mods2 else []
-                if o != "[" + ",".join(map(str, want)) + "]" and not caps2_open:
+                want = sorted(set().union(*[m[2] for m in mods2.values()])) if mods2 else []
+                if o != "[" + ",".join(map(str, want)) + "]" and not open2:
                     V("capabilities_union", f"{want} (union of the declared sets of the second diagram's modules)", o, idx)
             elif op == "speccaps":
-                if int(t[1]) in mods:
+                if int(t[1]) in mods and int(t[1]) not in open1:
                     want = sorted(mods[int(t[1])][2])
                     if o != "[" + ",".join(map(str, want)) + "]":
                         V("capabilities_union", f"module {t[1]} still declares {want}", o, idx)
             elif op == "capsmut":
                 pass
+            elif op == "swapdiag":
+                # executor.diagram re-assigned: what was the second diagram is now the one every clause speaks about
+                mods, mods2 = mods2, mods
+                wires, wires2 = wires2, wires
+                open1, open2 = open2, open1
+            elif op == "unwire":
+                a, p, b, q = map(int, t[1:5])
+                for i, w in enumerate(wires):
+                    if w[:4] == (a, p, b, q):
+                        del wires[i]
+                        break
+            elif op == "setwire":
+                if 0 <= int(t[1]) < len(wires):
+                    wires[int(t[1])] = tuple(map(int, t[2:6])) + (False,)
+            elif op == "revwires":
+                wires.reverse()
+            elif op == "delmod":
+                mods.pop(int(t[1]), None)
+                shared2.discard(int(t[1]))
+            elif op == "setmod":
+                rest = t[2:]
+                iI, iO, iC = rest.index("I"), rest.index("O"), rest.index("C")
+                mods[int(t[1])] = (pp(rest[iI + 1:iO]), pp(rest[iO + 1:iC]), frozenset(int(c) for c in rest[iC + 1:]))
+                shared2.discard(int(t[1]))
             elif op == "mod":
                 if o == "ok":
                     rest = t[2:]
                     iI, iO, iC = rest.index("I"), rest.index("O"), rest.index("C")
-                    pp = lambda ts: {int(a): (int(b), int(c)) for a, b, c in (z.split(":") for z in ts)}
                     mods[int(t[1])] = (pp(rest[iI + 1:iO]), pp(rest[iO + 1:iC]), frozenset(int(c) for c in rest[iC + 1:]))
                 elif o != "raise:WiringError":
                     V("only_wiring_error", "ok or WiringError from add_module", o, idx)
@@ -1024,12 +1206,13 @@ class C16(Prop):
                     else:
                         c_.discard(int(t[2]))
                     mods[n] = (i_, o_, frozenset(c_))
-                    if n in shared2 and op in ("addcap", "delcap"):
+                    if n in shared2:
                         # one ModuleSpec object registered in both diagrams: on the pinned code the edit shows in both; whether
-                        # the second diagram's module IS that object is not something the property text decides (a diagram
-                        # that stores a copy is as good), so from here on `caps2` is left to the correspondence
-                        mods2[n] = frozenset(c_)
-                        caps2_open.add(n)
+                        # the other diagram's module IS that object is not something the property text decides (a diagram
+                        # that stores a copy is as good), so from here on what is said about that module of the OTHER
+                        # diagram (`caps2`; after a `swapdiag` its runs) is left to the correspondence
+                        mods2[n] = mods[n]
+                        open2.add(n)
             elif op in ("handler", "handler2"):
                 if o == "ok":
                     ent = []
@@ -1060,7 +1243,7 @@ class C16(Prop):
                 ext[(int(t[1]), int(t[2]))] = None if t[3] == "raw" else (int(t[4]), int(t[5]))
             elif op == "caps":
                 want = sorted(set().union(*[m[2] for m in mods.values()])) if mods else []
-                if o != "[" + ",".join(map(str, want)) + "]":
+                if o != "[" + ",".join(map(str, want)) + "]" and not open1:
                     V("capabilities_union", want, o, idx)
             elif op == "flow":
                 a, b, c, dd = map(int, t[1:5])
@@ -1076,7 +1259,7 @@ class C16(Prop):
                     want = f"ok {a}/{b}/{k}" if good else "raise:WiringError"
                 if o != want:
                     V("label_guard_" + op, want, o, idx)
-            elif op in ("exec", "exec2"):
+            elif op in ("exec", "exec2") and not open1:
                 # "d" = default argument: the text promises nothing about wires that bypassed connect then
                 self._oracle_exec(V, idx, extra[idx], None if t[1] == "d" else t[1] == "1", mods, wires,
                                   handlers if op == "exec" else handlers_2, ext, mutset if op == "exec" else mutset_2)
